@@ -77,7 +77,7 @@ impl Property for C12 {
         "generated signatures over S s U u C c b f n N E _ - z m p with imm/hex/arg0/bs/len/nulless/mask/furibug attributes, up to 16 parameters with padding anywhere, x argument lists with width-boundary values (fitting and not), registers in allowed and immediate-only positions, Shift-JIS strings around buffer/block boundaries (encodable and not), 1..3 consecutive calls (furigana carry); checked: emitted blob/mask/arg0 == M-codec, decompiled arguments == M-codec decode, re-lowering reproduces the bytes, and every non-round-trippable input is diagnosed; non-trivial = >= 3 parameters incl. padding/sub-dword/string and a register or boundary value"
     }
     fn tape_len(&self, tier: Tier) -> usize { tier.pick(200, 300) }
-    fn cases(&self, tier: Tier) -> u32 { tier.pick(5000, 500000) }
+    fn cases(&self, tier: Tier) -> u32 { tier.pick(300000, 6000000) }
     fn required_labels(&self, _tier: Tier) -> Vec<&'static str> { vec!["clean", "must_diagnose", "string", "padding", "register", "arg0", "furibug", "pascal", "fixed"] }
 
     fn generate(&self, tape: &mut Tape, _tier: Tier, known: &Known) -> Value {
